@@ -20,8 +20,25 @@ from harness.checks import _rcommon
 from harness.wdriver import run_writer
 
 
+def block_size_hook_available():
+    """The read-ahead block size can only be varied while DiffXReader still has a
+    `_read_until(self, c, chunk_size=...)`; after a refactoring that removes it, only header padding varies
+    the alignment (both are in C17's quantifier) and the plain reader is used."""
+    import inspect
+    from pydiffx import DiffXReader
+    f = getattr(DiffXReader, '_read_until', None)
+    if f is None:
+        return False
+    try:
+        return 'chunk_size' in inspect.signature(f).parameters
+    except (TypeError, ValueError):
+        return False
+
+
 def _factory(bs):
     from pydiffx import DiffXReader
+    if not block_size_hook_available():
+        return DiffXReader
 
     class R(DiffXReader):
         def _read_until(self, c, chunk_size=None):
@@ -181,7 +198,9 @@ def run(run, replay=None):
     run.judge('Trace_Reader', cases + can, None, canary_ids=[c['id'] for c in can],
               describe=lambda c: {'padding': c['padding'], 'block_size': c['block_size'], 'end': c['end']})
     run.notes.update({'files': len(files), 'reads': nreads, 'file_padding_pairs_with_block_size_dependent_result': disagreeing})
-    run.assumptions += ['block size is varied through a subclass that overrides the default argument of _read_until']
+    run.notes['block_size_varied'] = block_size_hook_available()
+    run.assumptions += ['block size is varied through a subclass that overrides the default argument of _read_until '
+                        '(if that method still exists with that parameter)']
     return run.finish(
         rule='files x paddings x block sizes; distinct = (file, padding); non-trivial = padding > 0; every read is '
              'an evaluation (see notes.reads)',
